@@ -303,7 +303,16 @@ class _Random:
         return None
 
     def permutation(self, x):
-        raise Unsupported("RandomState.permutation")
+        """permutation(n): arange(n) shuffled; permutation(array): a shuffled COPY (the argument is left as it was)."""
+        if _arrish(x):
+            out = as_array(x).copy()
+        else:
+            n = concrete_value(x)
+            if n is None or isinstance(n, bool) or kind_of(n) != "int":
+                raise Unsupported("RandomState.permutation of a symbolic count")
+            out = from_list([int(t) for t in range(int(n))], "i")
+        self.shuffle(out)
+        return out
 
 
 def check_random_state(seed):
